@@ -202,6 +202,14 @@ func limiterMain(s *simrt.Sim, info *harness.RunInfo) {
 	skipFailed := s.Chance(250)
 	skipOK := !skipFailed && s.Chance(150)
 	storageKind := s.Draw(4)
+	// fault stratum: the storage fails now and then. The middleware's documented reaction is to start
+	// over with an empty entry, so nothing about the counts is demanded of such runs - only that every
+	// request is answered (no lock is left behind, nothing panics)
+	faults := s.Chance(120)
+	info.Faults = faults
+	if faults {
+		storageKind = 1
+	}
 	nclients := s.Range(2, harness.Scale(6, 9))
 	preempt := simrt.PickS(s, 150, 0, 50, 400)
 	clock := harness.StartCoarseClock(s, 0)
@@ -235,6 +243,10 @@ func limiterMain(s *simrt.Sim, info *harness.RunInfo) {
 		sim = harness.NewSimStorage(s, "limiter-store")
 		sim.Alias = storageKind == 2
 		sim.KeyOracle = "C13.storage-key-aliases-request-buffer"
+		if faults {
+			sim.FailGet = simrt.PickS(s, 100, 300, 0)
+			sim.FailSet = simrt.PickS(s, 100, 0, 300)
+		}
 		cfg.Storage = sim
 	case 3:
 		keyGuard = harness.NewKeyGuard(s, simexport.NewMemoryStorage(), "C13.storage-key-aliases-request-buffer")
@@ -325,6 +337,16 @@ func limiterMain(s *simrt.Sim, info *harness.RunInfo) {
 		keyGuard.Check("at the end of the run")
 	}
 	if s.Failed() {
+		return
+	}
+	if faults {
+		for _, op := range ops {
+			if op.ret == 0 {
+				s.Fail("C13.progress", "op%d was never answered after a storage fault", op.id)
+			}
+		}
+		info.StateHash = newHasher().str(cfgLine).str("faults").h
+		info.Sample = map[string]any{"config": cfgLine + " faults"}
 		return
 	}
 
